@@ -22,7 +22,10 @@ EXTENDS Integers, Sequences, FiniteSets, TLC
 CONSTANTS MaxLogH,            \* largest log2 trace height of an input matrix
           Blowups, Arities, FinalLens,   \* sets of log_blowup / max_log_arity / log_final_poly_len
           MaxBatches, MaxMats,
-          BatchIndexShifted
+          BatchIndexShifted,
+          UnconsumedPolicy    \* what the verifier does with an input height no fold phase reaches: "zero" = its reduced
+                              \* opening must be zero (the code: native UnconsumedReducedOpenings / circuit connect to 0),
+                              \* "ignore" = it is dropped
 
 VARIABLES lb, la, lf,         \* parameters
           batches,            \* Seq of Seq of log heights (trace domain)
@@ -111,6 +114,35 @@ CapBitsAccounted(cap) ==
     phase = "done" =>
         /\ \A j \in 1..Len(batches) : PathBitsInput(cap, j) >= 0 /\ PathBitsInput(cap, j) + EffCap(cap, BatchMax(batches[j])) = GlobalMax - shiftN[j]
         /\ \A i \in 1..Len(arities) : PathBitsCommit(cap, i) >= 0 /\ HeightAfter(i) >= FinalHeight
+
+(***************************************************************************)
+(* The fold schedule is the PROVER's: the verifier reads the arities off    *)
+(* the proof.  A prover that leaves the reduced opening of one input height *)
+(* out of its commit phase follows the schedule of the remaining heights,   *)
+(* which (max_log_arity >= 2) may step over the height it left out: no fold *)
+(* phase then rolls that height in, and nothing ties the claimed            *)
+(* evaluations of its matrices to the commitment unless the verifier        *)
+(* requires an unconsumed reduced opening to be zero.                       *)
+(***************************************************************************)
+RECURSIVE ScheduleFrom(_, _)
+ScheduleFrom(c, S) ==
+    IF c <= FinalHeight THEN <<>>
+    ELSE LET lower == {h \in S : h < c}
+             toTarget == c - FinalHeight
+             toNext == IF lower # {} THEN Min2(c - Max(lower), toTarget) ELSE toTarget
+             a == Min2(toNext, la)
+         IN <<a>> \o ScheduleFrom(c - a, S)
+HonestSchedule == ScheduleFrom(GlobalMax, AllHeights)
+Eligible == {h \in AllHeights : h < GlobalMax /\ h > FinalHeight}
+Withheld == IF Eligible = {} THEN -1 ELSE Max(Eligible)
+DishonestSchedule == ScheduleFrom(GlobalMax, AllHeights \ {Withheld})
+FoldedHeights(sch) == {GlobalMax - SumTo(sch, i) : i \in 1..Len(sch)}
+SteppedOver == Withheld # -1 /\ Withheld \notin FoldedHeights(DishonestSchedule)
+\* the action-by-action schedule of the model is the functional one
+ScheduleIsFunctional == (phase = "done" /\ ~Refused) => arities = HonestSchedule
+\* every input height above the final height is either rolled in by a phase of the dishonest schedule (then the fold
+\* equations see it) or caught by the zero rule
+WithheldHeightStillChecked == (phase = "done" /\ SteppedOver) => UnconsumedPolicy = "zero"
 
 \* every shorter height class above the final height is rolled in exactly once, at its own height
 RollInOnceAtRightHeight ==
